@@ -1971,6 +1971,14 @@ public:
         }
 
         abs_dom_t dom(init);
+        if (!m_ctx.analyze_recursive_functions() &&
+            m_ctx.get_recursive_set().count(cg_node) > 0) {
+          // The recursive calls are not analyzed (they are replaced
+          // with top) so a function of a call graph cycle must be
+          // analyzed for any calling context, as when it is called
+          // from another function (see propagate_from_caller).
+          dom = m_absval_fac.make_top();
+        }
         m_abs_tr->set_abs_value(std::move(dom));
         m_ctx.get_call_stack().push_back(cg_node);
         intra_analyzer_with_call_semantics_t *entry_analysis =
